@@ -22,7 +22,7 @@ RULE = ("build: values over 1e-30..1e30 (both signs), absolute or relative error
         "convert: every compatible unit pair incl. offset units, nominal by R's map, std-dev x |slope|, rel unchanged under multiplicative conversion; arith: "
         "expression trees (depth <= 3) over independent measurements, plain quantities and repeated operands ((a+b)-b, a*b/b, a-a, 2a-a, a.to(u)-a): nominal by "
         "plain arithmetic, std-dev by first-order propagation with exact correlation (own linear bookkeeping of partial derivatives); notation: every "
-        "notation of the uncertainty tokenizer x sign x exponent; format: every measurement format spec renders, plain-text renderings parse back. "
+        "notation of the uncertainty tokenizer x sign x exponent, two parses of one text are independent measurements; format: every measurement format spec renders, plain-text renderings parse back. "
         "Non-trivial = conversion between different scales, a notation with exponent or parenthesised digits, or an expression with a repeated operand; "
         "distinct = distinct (constructor/units/expression, values)")
 ASSUMPTIONS = ["first-order (linear) propagation is the contract of the uncertainties package; relative tolerance 1e-9 on std-dev"]
